@@ -2,13 +2,13 @@
 # usage: tools_seed_confirm.sh <name> <A|B>
 # In the scratch worktree /tmp/wt-<name>: (1) suite with the change passes, (2) demo with the change fails,
 # (3) demo without the change passes. Writes /tmp/seed-<name>/<X>/CONFIRM.txt
-N="$1"; X="$2"; x=$(echo $X | tr A-Z a-z)
+N="$1"; X="$2"; x=$(echo $X | tr A-Z a-z); CRATE="${3:-acts}"   # third argument: acts | store/sqlite
 W=/tmp/wt-$N; S=/tmp/seed-$N/$X; OUT=$S/CONFIRM.txt
 cd $W || exit 2
 git checkout -q -- . ; rm -f acts/src/seed_demo_*.rs acts/tests/seed_demo_*.rs
 MOD=seed_demo_$x
-cp $S/demo.rs acts/src/$MOD.rs
-wire() { grep -q "mod $MOD;" acts/src/lib.rs || printf '\n#[cfg(test)]\nmod %s;\n' $MOD >> acts/src/lib.rs; }
+cp $S/demo.rs $CRATE/src/$MOD.rs
+wire() { grep -q "mod $MOD;" $CRATE/src/lib.rs || printf '\n#[cfg(test)]\nmod %s;\n' $MOD >> $CRATE/src/lib.rs; }
 {
 echo "seed $N/$X  $(date -u)"
 git apply $S/patch.diff || echo "PATCH DOES NOT APPLY"
@@ -16,10 +16,10 @@ wire
 echo "--- (1) existing suite with the change (demo excluded)"
 cargo nextest run --workspace --offline -E 'not test(seed_demo)' 2>&1 | grep -E "Summary|FAIL" | head -5
 echo "--- (2) demo with the change (expected: FAIL)"
-cargo nextest run -p acts --offline -E 'test(seed_demo)' 2>&1 | grep -E "Summary|PASS|FAIL" | head -5
+cargo nextest run --workspace --offline -E 'test(seed_demo)' 2>&1 | grep -E "Summary|PASS|FAIL" | head -5
 git checkout -q -- . ; wire
 echo "--- (3) demo without the change (expected: PASS)"
-cargo nextest run -p acts --offline -E 'test(seed_demo)' 2>&1 | grep -E "Summary|PASS|FAIL" | head -5
-git checkout -q -- . ; rm -f acts/src/$MOD.rs
+cargo nextest run --workspace --offline -E 'test(seed_demo)' 2>&1 | grep -E "Summary|PASS|FAIL" | head -5
+git checkout -q -- . ; rm -f $CRATE/src/$MOD.rs
 } > $OUT 2>&1
 cat $OUT
